@@ -408,8 +408,12 @@ class Interp:
                 self.defect('badcount', e, f'class count uses relation {c[1]} instead of ==')
                 return K('badcount', c)
             sub, val = c[2], c[3]
-            if sub[0] == 'val':
+            if sub[0] in ('val', 'idx'):
                 sub, val = val, sub
+            if val[0] == 'idx' and val[1][0] == 'vals' and sub[0] in ('sub', 'disp', 'vec'):
+                # the values are compared with the POSITION of a class in the table of distinct values, not with the class value
+                self.defect('badcount', e, f'a class count compares the values with a loop position ({render(val)}) instead of the value at that position: right only while the distinct codes are exactly 0..k-1 in order')
+                val = K('val', val[1][1], val)
             if sub[0] == 'sub' and val[0] == 'val':
                 if val[1] != sub[1]:
                     self.defect('badcount', e, f'values of {sub[1]} compared with a value of {val[1]}')
